@@ -1752,6 +1752,31 @@ class _Spell(ast.NodeTransformer):
         return self._one_star(node, 'tuple')
 
 
+def _loop_over_comp(block):
+    """`for x in (y for y in S if C): BODY` (a generator expression or list
+    comprehension that only filters) is `for x in S: if C[y := x]: BODY`"""
+    changed = False
+    for st in block:
+        if not (isinstance(st, ast.For) and isinstance(st.target, ast.Name) and
+                isinstance(st.iter, (ast.GeneratorExp, ast.ListComp)) and
+                len(st.iter.generators) == 1):
+            continue
+        g = st.iter.generators[0]
+        if not (isinstance(g.target, ast.Name) and isinstance(st.iter.elt, ast.Name) and
+                st.iter.elt.id == g.target.id and not g.is_async):
+            continue
+        sub = _NameSub(g.target.id, ast.Name(id=st.target.id, ctx=ast.Load()))
+        conds = [sub.visit(clone(c)) for c in g.ifs]
+        body = st.body
+        if conds:
+            test = conds[0] if len(conds) == 1 else ast.BoolOp(op=ast.And(), values=conds)
+            body = [ast.copy_location(ast.If(test=test, body=st.body, orelse=[]), st)]
+        st.iter = g.iter
+        st.body = body
+        changed = True
+    return changed
+
+
 def _index_loops(block):
     """`for i in range(len(X)): ... X[i] ...` (i used only to index X, X not
     rebound in the body) is `for e in X: ... e ...`"""
@@ -1892,6 +1917,8 @@ def normalize(func):
                     if _unroll_const_loops(blk):
                         round_changed = True
                     if _index_loops(blk):
+                        round_changed = True
+                    if _loop_over_comp(blk):
                         round_changed = True
                     if _iter_next_loops(blk):
                         round_changed = True
